@@ -99,8 +99,8 @@ def frame(stream, n, k, kind, rs, route, sched, real_chunks=None):
                         a.sendall(stream[off:off + c])
                         off += c
                     a.sendall(stream[off:])
-                finally:
-                    pass
+                except OSError:
+                    pass   # the reader got its packets and closed its end while the tail was still being sent
             thread = threading.Thread(target=writer, daemon=True)
             thread.start()
             src = b
